@@ -27,7 +27,7 @@ from ..model import unparse, stmt_key, Func, AnchorError
 from . import visitors
 from .c02 import composer
 from .c05 import hasher, branches
-from .common import Ctx, find_api_functions, user_calls, store_calls, dominated, done_nodes
+from .common import Ctx, find_api_functions, user_calls, store_calls, dominated, done_nodes, ancestors
 
 PROP = "C01"
 COMPONENTS = {
@@ -120,47 +120,15 @@ def run(ctx: Ctx) -> None:
 
     # ---- R3 -------------------------------------------------------------------------------
     n3 = 0
-    iv = prog.classes.get("dds.introspect.IntroVisitor")
-    if iv is None:
-        raise AnchorError("dds.introspect.IntroVisitor not found")
-    vc = iv.methods.get("visit_Call")
-    if vc is None:
-        raise AnchorError("IntroVisitor.visit_Call not found")
-    def _has_end(fn: Func, e: Optional[ast.AST]) -> bool:
-        if e is None:
-            return False
-        s3 = ctx.slicer(follow_calls=False).slice(fn, e)
-        return s3.find(lambda f_, x: (isinstance(x, ast.Attribute) and x.attr == "end_lineno") or (isinstance(x, ast.Constant) and x.value == "end_lineno")) is not None
-
-    for m_ in iv.methods.values():
-        for n in m_.own_nodes():
-            if not (isinstance(n, ast.Call) and (prog.dotted(m_, n.func) or "").endswith("dds_hash") and n.args and isinstance(n.args[0], ast.Subscript)
-                    and isinstance(n.args[0].slice, ast.Slice)):
-                continue
-            up = n.args[0].slice.upper
-            desc = "the lines hashed as call-site context extend to the end of the (possibly multi-line) call"
-            sites: List[Tuple[Func, Optional[ast.AST]]] = []
-            if m_ is vc:
-                sites.append((vc, up))
-            else:
-                # the context is computed in a helper: the bound comes from the caller in visit_Call
-                s4 = ctx.slicer(follow_calls=False).slice(m_, up) if up is not None else None
-                params = [p_ for p_ in m_.params if s4 is not None and s4.has_param(m_, p_) is not None and p_ != "self"]
-                from ..flow import bind_arg
-                for c_ in [x for x in vc.own_nodes() if isinstance(x, ast.Call) and isinstance(x.func, ast.Attribute) and x.func.attr == m_.name]:
-                    for p_ in params:
-                        for a_ in bind_arg(m_, c_, p_):
-                            sites.append((vc, a_))
-                if not params and _has_end(m_, up):
-                    sites.append((m_, up))
-            for fn_, e_ in sites:
-                n3 += 1
-                if _has_end(fn_, e_):
-                    rep.ok("C01.R3", m_.qname, desc, m_.loc(n))
-                else:
-                    rep.bad("C01.R3", m_.qname, desc, m_.loc(n), [f"{fn_.loc(e_) if e_ is not None else m_.loc(n)}: upper bound `{unparse(e_)}` depends on the start line only",
-                            "an argument on the third or a later line of a kept call with run-time arguments is outside the context: editing it keeps the signature, the stale value is served"],
-                            "call-extent", what="call-site context stops before the end of a multi-line call")
+    for (m_, n, kind, fn_, e_) in context_extent(ctx):
+        n3 += 1
+        desc = "the lines hashed as call-site context extend to the end of the (possibly multi-line) call"
+        if kind in ("end", "whole"):
+            rep.ok("C01.R3", m_.qname, desc + (" (the whole body is hashed)" if kind == "whole" else ""), m_.loc(n))
+        else:
+            rep.bad("C01.R3", m_.qname, desc, m_.loc(n), [f"{fn_.loc(e_) if e_ is not None else m_.loc(n)}: upper bound `{unparse(e_)}` depends on the start line only",
+                    "an argument on the third or a later line of a kept call with run-time arguments is outside the context: editing it keeps the signature, the stale value is served"],
+                    "call-extent", what="call-site context stops before the end of a multi-line call")
     rep.floor("C01.R3", n3, 1)
 
     # ---- R4 -------------------------------------------------------------------------------
@@ -256,6 +224,109 @@ def run(ctx: Ctx) -> None:
     for k in [k for k in rep.floors if k.startswith("C13.")]:
         rep.floors["C01.R8/" + k] = rep.floors.pop(k)
 
+    # ---- R14: one key per path in an evaluation ----------------------------------------------------------------------------
+    rep.rule("C01.R14", "the (path -> signature) map of an evaluation is built with a collision check: a path that the analysis meets with two different "
+                        "signatures is refused, because the nested keep looks its key up by path")
+    asp = prog.funcs.get("dds.structures_utils.FunctionInteractionsUtils.all_store_paths")
+    if asp is None:
+        raise AnchorError("dds.structures_utils.FunctionInteractionsUtils.all_store_paths not found")
+    holders14 = [asp] + [g_ for g_ in prog.funcs.values() if g_ is not asp and any(isinstance(x, ast.Call) and unparse(x.func).endswith("all_store_paths") for x in g_.own_nodes())]
+    found14 = None
+    for g_ in holders14:
+        for r in [x for x in g_.own_nodes() if isinstance(x, ast.Raise)]:
+            guard = None
+            for a in ancestors(g_.module, r):
+                if isinstance(a, ast.If):
+                    guard = a
+                    break
+                if isinstance(a, (ast.FunctionDef, ast.AsyncFunctionDef)):
+                    break
+            if guard is None:
+                continue
+            cmp_ = [c for c in ast.walk(guard.test) if isinstance(c, ast.Compare) and isinstance(c.ops[0], (ast.NotEq, ast.IsNot))]
+            looks = [c for c in ast.walk(guard.test) if (isinstance(c, ast.Call) and isinstance(c.func, ast.Attribute) and c.func.attr == "get") or isinstance(c, ast.Subscript)]
+            if cmp_ and looks:
+                found14 = (g_, r)
+    desc14 = "a path met twice with different signatures is refused when the path map is built"
+    if found14 is not None:
+        rep.ok("C01.R14", found14[0].qname, desc14, found14[0].loc(found14[1]))
+    else:
+        conv = [x for x in asp.own_nodes() if isinstance(x, ast.Return)]
+        rep.bad("C01.R14", asp.qname, desc14, asp.loc(conv[0]) if conv else asp.loc(), [f"{asp.loc(conv[0]) if conv else asp.loc()}: `{unparse(conv[0], 50) if conv else ''}` keeps the last signature of a path silently",
+                "`a = dds.keep('/p', f, 1); b = dds.keep('/p', f, 2)` (or the two branches of an if): both keeps look up the key of '/p' and get the key of f(2); f(1) is stored "
+                "under it and the second keep is served 10 instead of 20 (/verif/findings/F21_path_kept_twice.py)"], "dup-path", what="a path kept twice in one evaluation gives every keep of that path the last key")
+
+    # ---- R13: the calls made in argument position precede the call that receives their values ------------------------------
+    rep.rule("C01.R13", "IntroVisitor.visit_Call visits the sub-expressions of a call (its arguments) before it computes the hash of the previous interactions "
+                        "that keys a kept call with run-time arguments: python evaluates the arguments first, so `dds.keep(p, f, helper())` depends on helper")
+    iv13 = prog.classes.get("dds.introspect.IntroVisitor")
+    vc13 = iv13.methods.get("visit_Call") if iv13 is not None else None
+    if vc13 is None:
+        raise AnchorError("dds.introspect.IntroVisitor.visit_Call not found")
+    c13cfg = cfg_of(vc13)
+    gv = [x for x in vc13.own_nodes() if isinstance(x, ast.Call) and isinstance(x.func, ast.Attribute) and x.func.attr == "generic_visit"]
+    prev = [x for x in vc13.own_nodes() if isinstance(x, ast.Call) and unparse(x.func).split(".")[-1] == "_fis_to_siglist"]
+    if not prev:
+        # the previous-interactions hash computed in a helper called from visit_Call
+        for x in vc13.own_nodes():
+            if isinstance(x, ast.Call):
+                fs_, _d = prog.callees(vc13, x, ctx._types)
+                if any(any(isinstance(y, ast.Call) and unparse(y.func).split(".")[-1] == "_fis_to_siglist" for y in g_.own_nodes()) for g_ in fs_):
+                    prev.append(x)
+    n13 = 0
+    for pcall in prev:
+        n13 += 1
+        desc = "the arguments of a call are visited before the hash of the previous interactions is taken"
+        doms13 = [d for g_ in gv for d in done_nodes(c13cfg, g_)]
+        w = dominated(ctx, vc13, pcall, doms13) if doms13 else [f"{vc13.loc()}: visit_Call never visits the children of the call"]
+        if w is None:
+            rep.ok("C01.R13", vc13.qname, desc, vc13.loc(pcall))
+        else:
+            rep.bad("C01.R13", vc13.qname, desc, vc13.loc(pcall), [f"{vc13.loc(pcall)}: `{unparse(pcall, 50)}` is computed before `generic_visit(node)` has visited the arguments:"] + w[-6:] + [
+                    "`def outer(): return dds.keep('/p', g, helper())`: the interaction of helper() is recorded after the key of the keep was computed, so editing what helper depends on "
+                    "leaves the key of g unchanged and the stale blob is served (20 instead of 70 in /verif/findings/F20_call_in_argument_position.py)"], "args-after-call",
+                    what="calls in argument position are not part of the key of the kept call that receives their values")
+    rep.floor("C01.R13", n13, 1)
+
+    # ---- R11 / R12 --------------------------------------------------------------------------------------------------------
+    rep.rule("C01.R11", "every literal list of (constant key, value) pairs handed to the order-insensitive combiner holds pairwise different values, and every hash "
+                        "computed in a function of the introspection is used (a component written twice means another one is missing)")
+    n11 = 0
+    for f in prog.funcs.values():
+        if f.module.name not in ("dds.introspect", "dds._introspect_indirect"):
+            continue
+        for n in f.own_nodes():
+            if isinstance(n, ast.Call) and (prog.dotted(f, n.func) or "").endswith("dds_hash_commut") and n.args:
+                lists = [x for x in ast.walk(n.args[0]) if isinstance(x, ast.List) and x.elts and all(isinstance(e, ast.Tuple) and len(e.elts) == 2 for e in x.elts)]
+                names = [unparse(e.elts[1]) for l in lists for e in l.elts if isinstance(e.elts[1], ast.Name)]
+                if len(names) < 2:
+                    continue
+                n11 += 1
+                dup = sorted({x for x in names if names.count(x) > 1})
+                desc = f"the {len(names)} components of `{unparse(n, 40)}` are distinct values"
+                if dup:
+                    fl_ = flow_of(prog, f)
+                    unused = []
+                    for st in f.own_nodes():
+                        if isinstance(st, ast.Assign) and len(st.targets) == 1 and isinstance(st.targets[0], ast.Name) and isinstance(st.value, ast.Call) and "hash" in unparse(st.value.func):
+                            v_ = st.targets[0].id
+                            if not any(isinstance(y, ast.Name) and y.id == v_ and isinstance(y.ctx, ast.Load) for y in f.own_nodes()):
+                                unused.append(f"{f.loc(st)}: `{v_}` is computed and never used")
+                    rep.bad("C01.R11", f.qname, desc, f.loc(n), [f"{f.loc(n)}: `{d}` is given under two different keys" for d in dup] + unused + [
+                        "the component that is missing no longer influences this key: a nested dds.keep whose run-time argument comes from an earlier call keeps its key when that "
+                        "call's dependencies change, and serves the stale blob"], stmt_key(n), what="a component of a signature is written twice and another one is dropped")
+                else:
+                    rep.ok("C01.R11", f.qname, desc, f.loc(n))
+    rep.floor("C01.R11", n11, 1)
+    rep.rule("C01.R12", "as C05.R1-R9: the value hasher is total and injective on what it supports (a lossy encoding of a module variable or an argument keeps the signature when the value changes)")
+    from . import c05 as _c05
+    before_ = len(rep.obligations)
+    _c05.run(ctx)
+    for o in rep.obligations[before_:]:
+        o.rule = "C01.R12/" + o.rule
+    for k in [k for k in rep.floors if k.startswith("C05.")]:
+        rep.floors["C01.R12/" + k] = rep.floors.pop(k)
+
     # ---- R10: the root keeps the path its decorator will ask for ---------------------------------------------------
     rep.rule("C01.R10", "attaching the explicit path of dds.keep to the root interactions does not drop a path the root already has (its "
                         "@data_function path): the decorated function still asks for that path at run time")
@@ -314,6 +385,54 @@ def run(ctx: Ctx) -> None:
     rep.floor("C01.R9", n9, 2)
 
     dismiss_rule(ctx, "C01.R6")
+
+
+def context_extent(ctx: Ctx):
+    """(method, dds_hash call, kind, function of the bound, bound expression) for every hash of the body lines taken as
+    call-site context in IntroVisitor: kind = 'end' (bounded by the call's end line), 'start-only', or 'whole' (no bound)"""
+    prog = ctx.prog
+    iv = prog.classes.get("dds.introspect.IntroVisitor")
+    if iv is None:
+        raise AnchorError("dds.introspect.IntroVisitor not found")
+    vc = iv.methods.get("visit_Call")
+    if vc is None:
+        raise AnchorError("IntroVisitor.visit_Call not found")
+
+    def _has_end(fn: Func, e: Optional[ast.AST]) -> bool:
+        if e is None:
+            return False
+        s3 = ctx.slicer(follow_calls=False).slice(fn, e)
+        return s3.find(lambda f_, x: (isinstance(x, ast.Attribute) and x.attr == "end_lineno") or (isinstance(x, ast.Constant) and x.value == "end_lineno")) is not None
+
+    out = []
+    for m_ in iv.methods.values():
+        for n in m_.own_nodes():
+            if not (isinstance(n, ast.Call) and (prog.dotted(m_, n.func) or "").endswith("dds_hash") and n.args):
+                continue
+            a0 = n.args[0]
+            if isinstance(a0, ast.Attribute) and "lines" in a0.attr:
+                out.append((m_, n, "whole", m_, None))
+                continue
+            if not (isinstance(a0, ast.Subscript) and isinstance(a0.slice, ast.Slice)):
+                continue
+            up = a0.slice.upper
+            sites: List[Tuple[Func, Optional[ast.AST]]] = []
+            if m_ is vc:
+                sites.append((vc, up))
+            else:
+                # the context is computed in a helper: the bound comes from the caller in visit_Call
+                s4 = ctx.slicer(follow_calls=False).slice(m_, up) if up is not None else None
+                params = [p_ for p_ in m_.params if s4 is not None and s4.has_param(m_, p_) is not None and p_ != "self"]
+                from ..flow import bind_arg
+                for c_ in [x for x in vc.own_nodes() if isinstance(x, ast.Call) and isinstance(x.func, ast.Attribute) and x.func.attr == m_.name]:
+                    for p_ in params:
+                        for a_ in bind_arg(m_, c_, p_):
+                            sites.append((vc, a_))
+                if not params and _has_end(m_, up):
+                    sites.append((m_, up))
+            for fn_, e_ in sites:
+                out.append((m_, n, "end" if _has_end(fn_, e_) else "start-only", fn_, e_))
+    return out
 
 
 def dismiss_rule(ctx: Ctx, rule: str) -> None:
@@ -404,3 +523,43 @@ def tracked_type_table(ctx: Ctx) -> None:
     else:
         rep.ok("C01.R4", cls.qname, desc, cls.loc())
     rep.floor("C01.R4", n, 8)
+    # each structural option switches its own types and nothing else
+    kinds = {"list": ("list", "tuple"), "dict": ("dict", "OrderedDict")}
+    wrong = []
+    und2 = []
+    for off in ("list", "dict"):
+        def oracle2(name, args, kwargs, node, _off=off):
+            if name.endswith("get_option"):
+                a = unparse(node.args[0]) if getattr(node, "args", None) else ""
+                if _off in a:
+                    return Const(False)
+                if ("list" in a) or ("dict" in a):
+                    return Const(True)
+                return Const(True)
+            if name.endswith("is_authorized_path"):
+                return Const(False)
+            if name.endswith("inspect.getmodule"):
+                return Obj("module", [], {})
+            if name.endswith("_mod_path"):
+                return Obj("path", [], {})
+            return NOT_HANDLED
+        for nm, py in tags:
+            if py.__name__ not in ("list", "tuple", "dict", "OrderedDict"):
+                continue
+            outs = Evaluator(prog, oracle=oracle2).run(cls, [TypeV(py, py.__name__), Obj("gctx", [], {})])
+            vals = {("tracked" if isinstance(o.value, Const) and o.value.v is True else "silent" if isinstance(o.value, Const) and o.value.v is False else "?") if o.kind != "raise" else "loud" for o in outs}
+            expect_tracked = py.__name__ not in kinds[off]
+            if "?" in vals or not vals:
+                und2.append(f"{py.__name__} with the {off} option off: {sorted(vals)}")
+            elif expect_tracked and vals != {"tracked"}:
+                wrong.append(f"with only the accept-{off} option switched off, {py.__name__} variables are no longer tracked by value ({sorted(vals)}): the option of another kind of container governs them")
+            elif not expect_tracked and "tracked" in vals:
+                wrong.append(f"with the accept-{off} option switched off, {py.__name__} variables are still tracked")
+    desc2 = "the accept-list option governs list / tuple variables and the accept-dict option dict / OrderedDict variables, independently"
+    if wrong:
+        rep.bad("C01.R4", cls.qname, desc2, cls.loc(), wrong + ["a dict module variable read by a tracked function becomes a name-only dependency: changing its content serves the stale result"],
+                "tracked-types-options", what="a structural option of the type classifier governs the wrong types")
+    elif und2:
+        rep.unknown("C01.R4", cls.qname, "option sensitivity of the type classifier not evaluated", cls.loc(), und2)
+    else:
+        rep.ok("C01.R4", cls.qname, desc2, cls.loc())
